@@ -26,21 +26,31 @@ func vC09hParse(s string) ma.Multiaddr {
 	return m
 }
 
+// parsed once, by the real parser
+const vC09hIDP = "QmYyQSo1c1Ym7orWxLYvCrM2EmxFTANf8wXmmE7DWjhx5N"
+const vC09hIDQ = "QmcgpsyWgH8Y8ajJz1Cu72KnS5uo2Aa2LpzU7kinSupNKC"
+
+var vC09hP, vC09hQ = vC09hDecode(vC09hIDP), vC09hDecode(vC09hIDQ)
+var vC09hBare = []ma.Multiaddr{vC09hParse("/ip4/1.2.3.4/tcp/1"), vC09hParse("/ip4/1.2.3.4/tcp/2")}
+var vC09hForms = []ma.Multiaddr{
+	vC09hBare[0],
+	vC09hParse("/ip4/1.2.3.4/tcp/1/p2p/" + vC09hIDP),
+	vC09hParse("/ip4/1.2.3.4/tcp/1/p2p/" + vC09hIDQ),
+	vC09hParse("/ip4/1.2.3.4/tcp/2/p2p/" + vC09hIDP),
+}
+
+func vC09hDecode(s string) peer.ID {
+	p, err := peer.Decode(s)
+	if err != nil {
+		panic(err)
+	}
+	return p
+}
+
 func VerifC09hP2PSuffix() {
 	defer func() { VerifHook_addrsRecord_flush = nil }()
-	const idP = "QmYyQSo1c1Ym7orWxLYvCrM2EmxFTANf8wXmmE7DWjhx5N"
-	const idQ = "QmcgpsyWgH8Y8ajJz1Cu72KnS5uo2Aa2LpzU7kinSupNKC"
-	P, err := peer.Decode(idP)
-	vAssume(err == nil)
-	Q, err := peer.Decode(idQ)
-	vAssume(err == nil)
-	bare := []ma.Multiaddr{vC09hParse("/ip4/1.2.3.4/tcp/1"), vC09hParse("/ip4/1.2.3.4/tcp/2")}
-	forms := []ma.Multiaddr{
-		bare[0],
-		vC09hParse("/ip4/1.2.3.4/tcp/1/p2p/" + idP),
-		vC09hParse("/ip4/1.2.3.4/tcp/1/p2p/" + idQ),
-		vC09hParse("/ip4/1.2.3.4/tcp/2/p2p/" + idP),
-	}
+	P, Q := vC09hP, vC09hQ
+	bare, forms := vC09hBare, vC09hForms
 	formBare := []int{0, 0, -1, 1} // which bare address a form stands for when addressed to P (-1: names another peer)
 	dab, _ := vC09book(nil)
 	mab := pstoremem.NewAddrBook(pstoremem.WithClock(vC09gClock{}))
